@@ -7,7 +7,8 @@ The registry is a parameter: node type name ↦ (consumed type, produced type or
 namespace Firebolt.Config
 
 inductive Ty where
-  | A | B | E          -- E = *firebolt.EventError
+  | A | B | E | Y | Z | I          -- E = *firebolt.EventError; Y = []byte, Z = a named []byte type, I = interface{} (distinct
+                                   -- types that Go considers assignable to one another: the code compares types for identity)
 deriving DecidableEq, Repr, Inhabited
 
 structure Reg where
